@@ -757,3 +757,77 @@ def session_present_family(report, prop="C11", label="session-present-vs-clean-s
     report.obligation("mon:" + label, "monitor", mon and judged["refuse"] > 0 and judged["accept"] > 0,
                       f"Session Present = 1 is refused after Clean Start = 1 ({judged['refuse']} connections) and accepted after a request to resume ({judged['accept']})")
     return ok and mon
+
+
+def packet_id_wrap_family(report, prop="C06", label="packet-id-wrap"):
+    """65540 QoS 1 publishes on one connection, each acknowledged before the next - the allocation cursor goes once round the
+    identifier space - with none / three of the first publishes left unacknowledged: every PUBLISH carries a non-zero identifier
+    that no unacknowledged publish holds, also at and after the wrap from 65535 to 1."""
+    from gv import harness_batch, resp_fields, unhex
+    from walk import split_packets
+    ok, mon = True, True
+    for held in (0, 3):
+        for v in ("311", "5"):
+            connack = "x20020000" if v == "311" else "x2003000000"
+            reqs = ["session.reset", f"eng.new v={v} policy=all drain=none pingto=100000 resolver=none rmax=2 | ka=0 cid=x63", "eng.open t=0 deadline=30000",
+                    "eng.svc t=0 cap=4096 prefill=0", "eng.wc t=0", f"eng.data t=0 b={connack}"]
+            n = 65540
+            acks = []
+            for i in range(n):
+                reqs += ["eng.pub t=1 | publish pid=0 topic=x74 qos=1 retain=0 payload=x00", "eng.svc t=1 cap=4096 prefill=0", "eng.wc t=1"]
+                acks.append(len(reqs))
+                reqs.append("eng.nst t=1")      # placeholder: replaced below by the PUBACK for the identifier the engine chose
+            # the acknowledgements depend on the identifiers chosen: first pass on the implementation with placeholders is
+            # not possible in batch mode, so the identifiers are predicted (cursor order, skipping the held ones) and verified
+            in_flight, cursor, script_ids = set(), 1, []
+            for i in range(n):
+                while cursor in in_flight:
+                    cursor = cursor % 65535 + 1
+                pid = cursor
+                cursor = cursor % 65535 + 1
+                script_ids.append(pid)
+                if i < held:
+                    in_flight.add(pid)
+                    reqs[acks[i]] = "eng.nst t=1"
+                else:
+                    reqs[acks[i]] = f"eng.data t=1 b=x4002{pid:04x}"
+            reqs.append("eng.snap")
+            impl = harness_batch(reqs)
+            model = driver_batch(reqs)
+            report.case(f"wrap v={v} held={held}")
+            report.traces_validated += 1
+            for i, (a, b) in enumerate(zip(impl, model)):
+                if canon(a) != canon(b):
+                    ok = False
+                    report.add_finding(Finding(prop, "corr:" + label, {"clause": "model-vs-impl", "verb": reqs[i].split(" ")[0]},
+                                               f"packet id wrap (publish #{i // 4}): implementation and model disagree", reqs[:6] + [f"# ... {i - 6} more lines ...", reqs[i], "# impl:  " + a[:200], "# model: " + b[:200]], has_input=False))
+                    break
+            # the wire: identifiers of the publishes in order
+            stream = b"".join(unhex(resp_fields(a)[0]["bytes"]) for q, a in zip(reqs, impl) if q.startswith("eng.svc") and resp_fields(a)[0].get("bytes", "x") != "x")
+            pkts, _, _ = split_packets(stream)
+            ids = []
+            for first, body in pkts:
+                if first >> 4 == 3:
+                    tl = (body[0] << 8) | body[1]
+                    ids.append((body[2 + tl] << 8) | body[3 + tl])
+            unacked, bad = set(), None
+            for k, pid in enumerate(ids):
+                if pid == 0:
+                    bad = f"publish #{k} was sent with packet identifier 0"
+                elif pid in unacked:
+                    bad = f"publish #{k} was sent with identifier {pid}, which an unacknowledged publish still holds"
+                if bad:
+                    break
+                if k < held:
+                    unacked.add(pid)
+            if not bad and len(ids) != n:
+                bad = f"{len(ids)} publishes on the wire, {n} submitted"
+            if not bad and ids != script_ids:
+                report.count(label + ".other-order")
+            if bad:
+                mon = False
+                report.add_finding(Finding(prop, "mon:" + label, {"clause": "id-zero-or-in-use", "version": v}, bad, reqs[:10] + ["# ... (65540 publish / service / write completion / PUBACK rounds)"]))
+            report.count(label + ".publishes", len(ids))
+    report.obligation("corr:" + label, "correspondence", ok, "4 connections x 65540 publishes (the cursor wraps), every response compared")
+    report.obligation("mon:" + label, "monitor", mon, "every identifier non-zero and not held by an unacknowledged publish, across the wrap")
+    return ok and mon
